@@ -501,10 +501,26 @@ func (g *generator) set(typ string, depth int) *SelSet {
 			}
 			s.Items = append(s.Items, SelItem{Field: dup})
 		case depth > 1 && len(fields) > 0 && !isRoot(typ) && g.p(g.o.PCloneDirs):
+			// prefer a field whose sub-selection itself selects objects: the copies
+			// then reach the same objects with equal text two levels down
 			var prev *Field
-			for tries := 0; tries < 6 && prev == nil; tries++ {
-				if c := fields[g.r.Intn(len(fields))]; c.Sub != nil {
+			for tries := 0; tries < 10; tries++ {
+				c := fields[g.r.Intn(len(fields))]
+				if c.Sub == nil {
+					continue
+				}
+				if prev == nil {
 					prev = c
+				}
+				deep := false
+				for _, it := range c.Sub.Items {
+					if it.Field != nil && it.Field.Sub != nil {
+						deep = true
+					}
+				}
+				if deep {
+					prev = c
+					break
 				}
 			}
 			if prev == nil {
